@@ -37,7 +37,9 @@ class CannotExpress(Exception):
 
 
 ERR_KINDS = {'ELFError': 'EElf', 'ELFParseError': 'EParse', 'ELFRelocationError': 'EReloc',
-             'ELFCompressionError': 'ECompress', 'DWARFError': 'EDwarf'}
+             'ELFCompressionError': 'ECompress', 'DWARFError': 'EDwarf',
+             # construct errors reach the caller through struct_parse, which re-raises them as ELFParseError
+             'FieldError': 'EParse', 'ConstructError': 'EParse', 'ArrayError': 'EParse'}
 
 
 def _z(n):
@@ -47,7 +49,7 @@ def _z(n):
 class Fn:
     """One function being translated."""
     def __init__(self, pyfunc, coq_name, params, records=None, field_types=None, opaque=None,
-                 ret='Z', drop_self=True):
+                 ret='Z', drop_self=True, stream=None, ignore=()):
         """params: ordered {python parameter name: type} for plain parameters;
         records: {python name of a dict-like parameter: coq prefix ('' = bare field names)};
         field_types: {field name: type} (default Z); opaque: {source text: (coq param name, type)}"""
@@ -58,6 +60,8 @@ class Fn:
         self.field_types = dict(field_types or {})
         self.opaque = dict(opaque or {})
         self.ret = ret
+        self.stream = stream            # name of a file-object parameter read one byte at a time (see stream_loop)
+        self.ignore = set(ignore)       # parameters the body must not use (e.g. construct's `context`)
         self.raises = False
         self.fields_used = []       # (record, field) in first-use order
         self.opaque_used = []
@@ -153,8 +157,8 @@ class Fn:
             lit = e.right.value if isinstance(e.right, ast.Constant) and isinstance(e.right.value, int) \
                 and not isinstance(e.right.value, bool) else None
             if op in (ast.LShift, ast.RShift):
-                if lit is None or lit < 0:
-                    self.bad(e, 'shift by something other than a non-negative literal')
+                if (lit is None or lit < 0) and not (isinstance(e.right, ast.Name) and e.right.id in self.nonneg_vars()):
+                    self.bad(e, 'shift by something other than a non-negative literal or a counter that provably stays >= 0')
                 return ('(Z.shiftl %s %s)' if op is ast.LShift else '(Z.shiftr %s %s)') % (a, b), 'Z'
             if op in (ast.FloorDiv, ast.Mod):
                 if lit is None or lit <= 0:
@@ -165,6 +169,13 @@ class Fn:
             parts = self.boolop_parts(e)
             sep = ' && ' if isinstance(e.op, ast.And) else ' || '
             return '(' + sep.join(parts) + ')', 'bool'
+        if isinstance(e, ast.IfExp):
+            c = self.truth(e.test)
+            a, ta = self.expr(e.body)
+            b, tb = self.expr(e.orelse)
+            if ta != tb or ta == 'str':
+                self.bad(e, 'conditional expression with branches of types %s / %s' % (ta, tb))
+            return '(if %s then %s else %s)' % (c, a, b), ta
         if isinstance(e, ast.Compare):
             return self.compare(e, guarded=set()), 'bool'
         if isinstance(e, ast.Call):
@@ -314,6 +325,10 @@ class Fn:
         return vs
 
     def wrap_ret(self, text):
+        if self.stream:
+            if not getattr(self, 'in_stream_loop', False):
+                self.bad(self.node, 'return outside the stream loop of a stream function')
+            return 'Ok (%s, v_%s)' % (text, self.stream)
         return 'Ok %s' % text if self.raises else text
 
     def block(self, stmts, k):
@@ -401,6 +416,10 @@ class Fn:
             body = nxt()
             arg = ("'%s" % self.tuple_pat(vs)) if len(vs) > 1 else (self.env_names[vs[0]] if vs else '(_ : unit)')
             return 'let %s := fun %s =>\n%s in\nif %s\nthen %s\nelse %s' % (kname, arg, body, c, a, b)
+        if isinstance(s, ast.While):
+            if not self.stream:
+                self.bad(s, 'while loop in a function without a declared stream parameter')
+            return self.stream_loop(s, rest)
         if isinstance(s, ast.For):
             if s.orelse or not isinstance(s.target, ast.Name):
                 self.bad(s, 'for loop shape')
@@ -458,6 +477,86 @@ class Fn:
     def restore(self, snap):
         self.env_types, self.env_names = dict(snap[0]), dict(snap[1])
 
+    def nonneg_vars(self):
+        """names whose every assignment in the function is `= <non-negative int literal>` or
+        `+= <non-negative int literal>`: such a counter can never be negative (sound, syntactic)"""
+        ok, bad = set(), set()
+        def lit(v):
+            return isinstance(v, ast.Constant) and isinstance(v.value, int) and not isinstance(v.value, bool) and v.value >= 0
+        for n in ast.walk(self.node):
+            if isinstance(n, ast.Assign):
+                for t in n.targets:
+                    for m in ast.walk(t):
+                        if isinstance(m, ast.Name):
+                            (ok if lit(n.value) and isinstance(t, ast.Name) else bad).add(m.id)
+            elif isinstance(n, ast.AugAssign) and isinstance(n.target, ast.Name):
+                (ok if isinstance(n.op, ast.Add) and lit(n.value) else bad).add(n.target.id)
+            elif isinstance(n, (ast.For, ast.comprehension)):
+                for m in ast.walk(n.target):
+                    if isinstance(m, ast.Name):
+                        bad.add(m.id)
+        for a in self.node.args.args:
+            bad.add(a.arg)
+        return ok - bad
+
+    def stream_loop(self, s, rest):
+        """`while True:` whose body starts with
+               d = stream.read(1)
+               if len(d) != 1: raise E(...)
+               b = d[0]
+        and whose remaining statements either return or fall off the end (= next iteration).
+        Becomes a Fixpoint by structural recursion on the unread bytes; returns (value, unread bytes)."""
+        if rest:
+            self.bad(s, 'statements after the stream loop')
+        if not (isinstance(s.test, ast.Constant) and s.test.value is True) or s.orelse or len(s.body) < 3:
+            self.bad(s, 'while loop shape')
+        st = self.stream
+        a0, a1, a2 = s.body[0], s.body[1], s.body[2]
+        ok = (isinstance(a0, ast.Assign) and len(a0.targets) == 1 and isinstance(a0.targets[0], ast.Name)
+              and ast.unparse(a0.value) == '%s.read(1)' % st)
+        d = a0.targets[0].id if ok else None
+        ok = ok and isinstance(a1, ast.If) and not a1.orelse and ast.unparse(a1.test) == 'len(%s) != 1' % d \
+            and len(a1.body) == 1 and isinstance(a1.body[0], ast.Raise)
+        ok = ok and isinstance(a2, ast.Assign) and len(a2.targets) == 1 and isinstance(a2.targets[0], ast.Name) \
+            and ast.unparse(a2.value) == '%s[0]' % d
+        if not ok:
+            self.bad(s, 'stream loop must start with  d = %s.read(1); if len(d) != 1: raise ...; b = d[0]' % st)
+        exc = a1.body[0].exc
+        ename = exc.func.id if isinstance(exc, ast.Call) and isinstance(exc.func, ast.Name) else \
+            (exc.id if isinstance(exc, ast.Name) else None)
+        if ename not in ERR_KINDS:
+            self.bad(a1, 'unknown exception class')
+        body = s.body[3:]
+        for n in ast.walk(ast.Module(body=body, type_ignores=[])):
+            if isinstance(n, ast.Name) and n.id in (d, st):
+                self.bad(s, 'the loop body uses the raw read buffer or the stream beyond the read pattern')
+            if isinstance(n, (ast.Break, ast.Continue, ast.While, ast.For)):
+                self.bad(s, 'break/continue/nested loop in the stream loop')
+        carried = [v for v in self.assigned(body) if v in self.env_types]
+        for v in self.assigned(body):
+            if v not in self.env_types:
+                # a variable first bound inside the body is local to one iteration: it must be assigned
+                # before any use in the body (checked by expr(): unknown name otherwise)
+                pass
+        for v in carried:
+            if self.env_types[v] != 'Z':
+                self.bad(s, 'loop-carried variable %s is not an int' % v)
+        loop = self.coq_name + '_loop'
+        saved = self.snapshot()
+        self.bind(a2.targets[0].id, 'Z')
+        bname = self.env_names[a2.targets[0].id]
+        self.in_stream_loop = True
+        call = lambda: '%s v_%s %s' % (loop, st, ' '.join(self.env_names[v] for v in carried))
+        text = self.block(body, call)
+        self.in_stream_loop = False
+        self.restore(saved)
+        fix = ('Fixpoint %s (v_%s : list Z) %s {struct v_%s} : res (Z * list Z) :=\n'
+               'match v_%s with\n| [] => Err %s\n| %s :: v_%s =>\n%s\nend.\n' %
+               (loop, st, ' '.join('(%s : Z)' % self.env_names[v] for v in carried), st,
+                st, ERR_KINDS[ename], bname, st, text))
+        self.prelude_defs.append(fix)
+        return '%s v_%s %s' % (loop, st, ' '.join(self.env_names[v] for v in carried))
+
     # ------------------------------------------------------------------ top
     def translate(self):
         self.env_types, self.env_names = {}, {}
@@ -465,8 +564,12 @@ class Fn:
         if self.node.args.vararg or self.node.args.kwarg or self.node.args.kwonlyargs:
             self.bad(self.node, 'signature')
         plain = []
+        self.prelude_defs = []
+        self.in_stream_loop = False
         for a in args:
             if a in self.records:
+                continue
+            if a == self.stream or a in self.ignore:
                 continue
             if a == 'self' and a not in self.params:
                 continue
@@ -475,6 +578,9 @@ class Fn:
             self.bind(a, self.params[a])
             plain.append(a)
         self.raises = any(isinstance(n, ast.Raise) for n in ast.walk(self.node))
+        for n in ast.walk(self.node):
+            if isinstance(n, ast.Name) and n.id in self.ignore:
+                self.bad(n, 'use of a parameter declared unused')
         body = self.block(self.node.body, None)
         coqty = {'Z': 'Z', 'bool': 'bool', 'enum': 'enum_val', 'bytes': 'list Z'}
         binders = []
@@ -488,11 +594,15 @@ class Fn:
         for a in plain:
             binders.append('(v_%s : %s)' % (a, coqty[self.params[a]]))
         rty = coqty[self.ret]
-        if self.raises:
+        if self.stream:
+            binders.insert(0, '(v_%s : list Z)' % self.stream)
+            rty = 'res (%s * list Z)' % rty
+        elif self.raises:
             rty = 'res %s' % (rty if ' ' not in rty else '(%s)' % rty)
         sig = '(* parameters, in order: %s *)' % ', '.join(
             ['%s[%r]' % (r, f) for r, f in self.fields_used] + [n for n, _ in self.opaque_used] + plain)
-        return '%s\nDefinition %s %s : %s :=\n%s.\n' % (sig, self.coq_name, ' '.join(binders), rty, body)
+        return '%s\n%sDefinition %s %s : %s :=\n%s.\n' % (sig, ''.join(d + '\n' for d in self.prelude_defs),
+                                                           self.coq_name, ' '.join(binders), rty, body)
 
 
 PRELUDE = '''From PV Require Import Base.Enum Base.Outcome.
